@@ -1,5 +1,5 @@
 (** Extraction of the vpop engine (model of user_exists, the concrete directory semantics used by the
     correspondence run, and the boolean spec checker) to OCaml.  Directives: ExtrOcamlBasic only. *)
 From Coq Require Import ExtrOcamlBasic.
-From Qv Require Import Common.Bytes Model.Vpop Spec.VpopSpec.
-Extraction "m.ml" user_exists addrparse_rcpt fs_of_layout vpopbounce_of conf_of spec_ok_C13 spec_ok_C13_rcpt.
+From Qv Require Import Common.Bytes Model.Cdb Model.Vpop Model.VpopFile Model.VpopDs Spec.VpopSpec.
+Extraction "m.ml" user_exists vget_dir user_exists_ds ds_fresh held addrparse_rcpt addrparse_literal fs_of_layout vpopbounce_of conf_of spec_ok_C13 spec_ok_C13_rcpt.
